@@ -8,6 +8,7 @@ import (
 	"path/filepath"
 	"strings"
 	"syscall"
+	"time"
 )
 
 // Sim-disk. The project lives in a real directory tree under the worker's private
@@ -195,6 +196,15 @@ func (d *Disk) apply(f *Fault, accessed string) error {
 			b[o] ^= m
 			os.WriteFile(t, b, 0o644)
 		}
+	case "filler-tail":
+		// from Off to the end the file reads back as one filler byte: never-written blocks (0x00),
+		// erased flash (0xFF), a test pattern left by a formatter (0xAA / 0x55), a stuck line (0x80, 0xBF)
+		if b, err := os.ReadFile(t); err == nil && len(b) > 0 {
+			for i := f.Off % len(b); i < len(b); i++ {
+				b[i] = f.Mask
+			}
+			os.WriteFile(t, b, 0o644)
+		}
 	case "setbyte":
 		if b, err := os.ReadFile(t); err == nil && f.Off < len(b) {
 			b[f.Off] = f.Mask
@@ -283,9 +293,16 @@ func MaterialiseAt(dir string, files []GenFile) error {
 		if err := os.WriteFile(p, f.Data, 0o644); err != nil {
 			return err
 		}
+		os.Chtimes(p, fixedMtime, fixedMtime)
 	}
 	return nil
 }
+
+// fixedMtime: every file the sim-disk writes carries the same modification time, whatever
+// version it is - the file system of the simulation has a timestamp granularity coarser than
+// the run (FAT: 2 s, ext3/HFS+: 1 s, `cp -p`, restored backups). Anything that decides
+// "unchanged" from size and mtime is therefore wrong as soon as a fault keeps the size.
+var fixedMtime = time.Unix(1577836800, 0)
 
 // Materialise writes the project and the decoys below the current directory.
 func Materialise(files []GenFile) error {
@@ -308,6 +325,7 @@ func Materialise(files []GenFile) error {
 		if err := os.WriteFile(p, f.Data, 0o644); err != nil {
 			return err
 		}
+		os.Chtimes(p, fixedMtime, fixedMtime)
 	}
 	for _, dp := range decoyPaths {
 		os.MkdirAll(filepath.Dir(dp), 0o755)
